@@ -28,7 +28,7 @@ try:
         ok &= good
         print("%s %s expect=%s rc=%d %s" % ("PASS" if good else "FAIL", p, expect, r.returncode, os.path.basename(patch)))
         if not good or os.environ.get("SELFTEST_VERBOSE"):
-            print(r.stdout[-3000:])
+            print(r.stdout[-1500:])
         elif fired:
             print("   ", [l for l in r.stdout.splitlines() if l.startswith("VIOLATION")][0][:260])
 finally:
